@@ -167,13 +167,20 @@ struct Foo:
   1 [+1]  Bar  b
 """
 
+ATTR_LISTS = [
+    '[expected_back_ends: "cpp, java, rust, go"]\n[(proto) namespace: "x"]\nstruct Foo:\n  0 [+1]  UInt  a\n',
+    '[expected_back_ends: "zz, yy, xx, ww, vv"]\n[(cpp) namespace: "x"]\n[(uu) thing: "x"]\nstruct Foo:\n  0 [+1]  UInt  a\n',
+    'struct Foo:\n  0 [+2]  UInt  a\n    [byte_order: "Sideways"]\n  2 [+1]  UInt  b\n    [text_output: "Loud"]\n',
+    '[(cpp) $default enum_case: "snake, kCamelCase, SHOUTY_CASE, lower"]\nenum Ee:\n  AA = 1\n',
+]
+
 SYNTAX = ["struct Foo:\n  0 [+1] UInt\n", "struct Foo:\n  0 [+1]  UInt  x y\n", "enum Foo:\n  AA = \n", "struct Foo\n  0 [+1]  UInt  x\n", "struct Foo:\n  let x = (1 +\n", "import \"a\"\n", "struct Foo:\n  0 [+1]  UInt  x\n  [requires: x ==]\n", "bits Foo:\n  0 [+1]  UInt:8[  x\n"]
 
 
 def literal_sets():
     imp = {"imp.emb": "struct Bar:\n  0 [+1]  UInt  z\n"}
     out = [({"m.emb": MULTI_CYCLE}, "m.emb"), ({"m.emb": MULTI_ERRORS}, "m.emb"), (dict(imp, **{"m.emb": AMBIGUOUS}), "m.emb")]
-    for s in SYNTAX:
+    for s in SYNTAX + ATTR_LISTS:
         out.append(({"m.emb": s}, "m.emb"))
     # several independent 2-cycles among enum values and among virtual fields
     out.append(({"m.emb": "enum Ee:\n  AA = BB\n  BB = AA\n  CC = DD\n  DD = CC\n  FF = GG\n  GG = FF\n"}, "m.emb"))
@@ -195,7 +202,27 @@ def generated_sets(seed, n):
     out = []
     for files, main in corpus:
         out.append((dict(files), main))
+    from embgen import depgraph
+
+    snips = emb.test_snippets()
     while len(out) < len(corpus) + n:
+        k = rnd.random()
+        if k < 0.2:
+            t = rnd.choice(snips)
+            if rnd.random() < 0.4:
+                t = textmut.mutate(rnd, t, n_mut=1)
+            out.append(({"m.emb": t, "imp.emb": c16_total.IMPORTED}, "m.emb"))
+            continue
+        if k < 0.35:
+            g = depgraph.random_graph(rnd)
+            kk = rnd.random()
+            if kk < 0.6:
+                out.append(({"m.emb": depgraph.struct_program(rnd, g)[0]}, "m.emb"))
+            elif kk < 0.8:
+                out.append(({"m.emb": depgraph.enum_program(rnd, g)[0]}, "m.emb"))
+            else:
+                out.append(depgraph.import_program(rnd, g))
+            continue
         k = rnd.random()
         if semgen is not None and k < 0.35:
             out.append(semgen.c16_source(rnd)[1:])
